@@ -212,9 +212,19 @@ impl<L: Lit> Renumber<L> {
         }
 
         for latch in &aig.latches {
+            let lit = latch.state;
             self.last_code += 2;
-            self.lit_map
-                .insert(latch.state, L::from_code(self.last_code));
+            // A latch state must not share its variable with the constant, an input or an and
+            // gate (all recorded in `defs`), nor with another latch (already in `lit_map`).
+            if self.defs.contains_key(&lit)
+                || self.defs.contains_key(&L::from_code(1 ^ lit.code()))
+                || self
+                    .lit_map
+                    .insert(lit, L::from_code(self.last_code))
+                    .is_some()
+            {
+                return Err(AigStructureError::LitAlreadyDefined { lit });
+            }
         }
 
         if !self.config.trim {
